@@ -8,7 +8,6 @@ package c02
 
 import (
 	"bytes"
-	"context"
 	"fmt"
 	"io"
 	"runtime"
@@ -19,12 +18,10 @@ import (
 
 	"pgregory.net/rapid"
 
-	"tunnox-core/internal/protocol/session"
-	"tunnox-core/internal/stream"
 	"tunnox-core/verif/vkit"
 )
 
-func TestMain(m *testing.M) { vkit.Main(m, "C02") }
+// TestMain is in supervise_test.go.
 
 const copyBuf = 32 * 1024 // constants.CopyBufferSize: the most one copy-loop Read can return
 
@@ -328,7 +325,9 @@ func runCase(c Case) (*failure, *obs) {
 		return f, o
 	}
 	// injected transport errors count tunnel bytes only (the mini-server wrote handshake replies before)
-	baseA, baseB := aS.BytesWritten(), bS.BytesWritten()
+	// (what the client consumed so far is exactly what the server wrote before the tunnel bytes:
+	// handshake replies and the TunnelOpenAck; the bridge may already be writing behind them)
+	baseA, baseB := aN.BytesRead(), bN.BytesRead()
 	switch c.Ending.Kind {
 	case "fail-read-srvA":
 		aS.FailReadAfter.Store(int64(c.Ending.K))
@@ -341,7 +340,7 @@ func runCase(c Case) (*failure, *obs) {
 	go A.reader()
 	go A.writer(c.WritesAB, upA, c.Pace, earlyA)
 	startB := func() {
-		baseB = bS.BytesWritten()
+		baseB = bN.BytesRead()
 		if c.Ending.Kind == "fail-write-srvB" {
 			bS.FailWriteAfter.Store(baseB + int64(c.Ending.K))
 		}
@@ -608,7 +607,7 @@ func capBucket(n int) string {
 }
 
 func caseSig(c Case) string {
-	return fmt.Sprintf("%s|%s|%d|%s|%s|%v|%s|%s|%d|%d|%v", sizeBucket(c.LenAB), sizeBucket(c.LenBA), c.Limit, c.Ending.Kind, c.Attach, c.Stream,
+	return fmt.Sprintf("%v|%s|%s|%d|%s|%s|%v|%s|%s|%d|%d|%v", c.Mini, sizeBucket(c.LenAB), sizeBucket(c.LenBA), c.Limit, c.Ending.Kind, c.Attach, c.Stream,
 		capBucket(c.SrvReadCapA), capBucket(c.SrvReadCapB), len(c.WritesAB), len(c.WritesBA), c.DataWithEOF)
 }
 
@@ -627,6 +626,7 @@ var latMu sync.Mutex
 var latencies []time.Duration
 
 func check(t vkit.TB, c Case) {
+	notePending(c)
 	f, o := runCase(c)
 	if f != nil && f.timing {
 		// bounded-time expectations are re-run once before they are reported
@@ -649,8 +649,12 @@ func check(t vkit.TB, c Case) {
 	}
 	midClose := c.Ending.Kind[:5] == "early" || c.Ending.Kind[:4] == "fail" || c.Ending.Kind == "bridge-close"
 	nt := c.LenAB > 0 && c.LenBA > 0 && o.overlap && (c.LenAB > copyBuf || c.LenBA > copyBuf || c.Limit > 0 || midClose)
-	vkit.Case(c.Ending.Kind, nt, caseSig(c))
-	vkit.Sample(c.Ending.Kind, summarize(c))
+	class := c.Ending.Kind
+	if c.Mini {
+		class = "session:" + class
+	}
+	vkit.Case(class, nt, caseSig(c))
+	vkit.Sample(class, summarize(c))
 	vkit.Class("feat:" + limClass(c.Limit))
 	vkit.Class("feat:attach=" + c.Attach)
 	if c.Stream {
@@ -883,6 +887,20 @@ func TestLimiterBurstFamily(t *testing.T) {
 	}
 }
 
+// TestSession runs the same cases through the mini-server: control handshakes, a port mapping whose
+// Config.BandwidthLimit is the drawn limit, the source's and the target's TunnelOpen packets; the
+// bridge is created, run and removed by SessionManager (startSourceBridge / handleExistingBridge /
+// runBridgeLifecycle). "The server forgets the tunnel" = GetTunnelBridgeByMappingID finds nothing
+// and the routing table has no waiting record for the tunnel id.
+func TestSession(t *testing.T) {
+	vkit.Check(t, 480, 8000, func(t *rapid.T) {
+		c := genCase(t, []int64{0, 0, 0, 10 * 1024 * 1024, 64 * 1024, 4096})
+		c.Mini = true
+		c.Stream = true
+		check(t, c)
+	})
+}
+
 // TestCloseRace (E3): Bridge.Close() from 1..3 goroutines released by a spin flag while both copy
 // loops are moving small payloads; the prefix / closure / counter oracle of runCase applies.
 func TestCloseRace(t *testing.T) {
@@ -931,5 +949,8 @@ func TestReplay(t *testing.T) {
 	if _, err := vkit.LoadReplay(path, &c); err != nil {
 		t.Fatalf("bad replay file: %v", err)
 	}
-	check(t, c)
+	// outcomes depend on goroutine schedules as well as on the case: repeat it
+	for i := 0; i < 40; i++ {
+		check(t, c)
+	}
 }
